@@ -9,7 +9,7 @@ SPECDIR = os.path.join(vlib.SPECS, "linalg")
 def run(pid, tier, replay=None):
     ck = Check(pid, tier, "model_checking")
     sc = ck.scratch
-    D = 4 if tier == "quick" else 6
+    D = 5 if tier == "quick" else 10
     ck.assumptions += [
         "contents are index-coded small integers (four codings: positive, with negative entries, with scattered exact zeros, with a zero first column / row): every product and sum is exact, any misplaced element changes the result",
         "all dimension triples in 1..%d (rectangular, inner dimension one included); larger dimensions are not enumerated" % D,
